@@ -19,9 +19,11 @@ def r_basisguard(idx, rep, rule="R-BASISGUARD"):
     t = ncmp(st.test)
 
     def abs_comp(e):
-        if isinstance(e, ast.Call) and call_name(e) in ("abs", "np.abs", "math.fabs") and e.args and isinstance(e.args[0], ast.Subscript) \
-                and u(e.args[0].value) == n and isinstance(const(e.args[0].slice), int):
-            return const(e.args[0].slice)
+        e = resolved(f.node, e) if isinstance(e, ast.Name) else e                    # `abs_x = abs(n[0])` named first
+        if isinstance(e, ast.Call) and call_name(e) in ("abs", "np.abs", "math.fabs") and e.args:
+            a = resolved(f.node, e.args[0]) if isinstance(e.args[0], ast.Name) else e.args[0]      # `nx = n[0]` named first
+            if isinstance(a, ast.Subscript) and u(a.value) == n and isinstance(const(a.slice), int):
+                return const(a.slice)
         return None
     where = "%s:%d" % (f.module.relpath, st.lineno)
     ok = t is not None and t[0] in ("<=", "<") and abs_comp(t[1]) is not None and abs_comp(t[2]) is not None
@@ -37,7 +39,8 @@ def r_basisguard(idx, rep, rule="R-BASISGUARD"):
         for s in ast.walk(ast.Module(body=body, type_ignores=[])):
             if isinstance(s, ast.Call) and call_name(s) in ("math.sqrt", "np.sqrt") and s.args:
                 comps = set()
-                for sub in ast.walk(resolved(f.node, s.args[0])):
+                from ..core.astutil import inline_temps_in
+                for sub in ast.walk(inline_temps_in(f.node, s.args[0])):
                     if isinstance(sub, ast.Subscript) and u(sub.value) == n and isinstance(const(sub.slice), int):
                         comps.add(const(sub.slice))
                 out = comps
